@@ -11,7 +11,7 @@ ID = 'C02'
 PROPS_FILE = 'theories/Props/C02.v'
 PROPS_MODULE = 'Props.C02'
 COQ_TARGETS = ['theories/Extract/ExtractSyntax.vo']
-REQUIRED_THEOREMS = ['C02_roundtrip_simple_partial', 'C02_simple_is_wellformed', 'C02_layout_independent_simple_partial', 'C02_roundtrip_statement_refuted_by_D7', 'C02_roundtrip_multiline_partial', 'C02_multiline_is_wellformed', 'C02_layout_independent_multiline_partial', 'C02_simple_in_multiline']
+REQUIRED_THEOREMS = ['C02_roundtrip_simple_partial', 'C02_simple_is_wellformed', 'C02_layout_independent_simple_partial', 'C02_roundtrip_statement_refuted_by_D7', 'C02_roundtrip_multiline_partial', 'C02_multiline_is_wellformed', 'C02_layout_independent_multiline_partial', 'C02_simple_in_multiline', 'C02_roundtrip_select_partial', 'C02_select_is_wellformed', 'C02_layout_independent_select_partial', 'C02_select_depth_monotone']
 MODEL = 'syn'
 HARNESS_BINS = ['syn_run']
 ANCHORS = ['fluent-syntax/src/parser/core.rs', 'fluent-syntax/src/parser/pattern.rs', 'fluent-syntax/src/parser/expression.rs',
@@ -342,16 +342,18 @@ def nontrivial(case, out):
 
 
 PARTIAL = ('the full round trip parse (render cs t) = t for ALL well-formed trees is stated (C02_roundtrip_statement) but proved only for the '
-           'fragment simple_resource (stand-alone comments; messages/terms whose value and attributes are one-line patterns of text and '
-           'placeables holding a variable/message/term reference or a number/string literal; ALL layouts). Selects, call arguments, '
-           'multi-line text, attached comments are covered by the spec-driven oracle only. The full statement is refuted on the current tree '
+           'fragment sel_resource d for every nesting depth d (stand-alone and attached comments; messages/terms whose values and attributes are '
+           'multi-line patterns — uneven indentation, blank lines, placeable-led lines — with placeables holding simple inline expressions, nested '
+           'placeables and select expressions with literal/variable selectors; ALL layouts). Function/term calls with arguments and term-attribute '
+           'selectors are covered by the spec-driven oracle only. The full statement is refuted on the current tree '
            'by the known finding D7 (theorem C02_roundtrip_statement_refuted_by_D7).')
 
 MANIFEST = {
     'text': 'The Fluent grammar is formalised as a printer with layout choices (Render.v: render, wf_resource); the property is the '
             'round trip parse (render cs t) = t for all well-formed t and all layouts cs. PROVED in Rocq for the fragment '
-            'simple_resource under every layout (C02_roundtrip_simple_partial, layout independence as a corollary); for the rest of the '
-            'grammar (selects, call arguments, multi-line patterns, attached comments) the implementation is tested directly against the '
+            'sel_resource d (comments incl. attached; multi-line patterns with the dedent rule; nested placeables; select expressions to any '
+            'depth) under every layout (C02_roundtrip_select_partial, layout independence as a corollary); for the rest of the '
+            'grammar (function/term call arguments, term-attribute selectors) the implementation is tested directly against the '
             'extracted formal printer on every run (random trees x random layouts, systematic per-construct layouts), and the model '
             'parser is tied to the real one by the correspondence check.',
     'note': 'PARTIAL proof (fragment). Trusted: Render.v as our reading of the Fluent 1.0 EBNF (validated by tests only); parser model '
